@@ -2,7 +2,7 @@ import Sqljson.Audit
 import Sqljson.Props.C19
 open Sqljson
 #audit_ns C19 Sqljson.C19
-#audit C19 [Sqljson.GenFacts.no_goroutines, Sqljson.GenFacts.no_unsafe_or_sync, Sqljson.GenFacts.no_package_var_writes, Sqljson.GenFacts.no_package_var_uses,
+#audit C19 [Sqljson.GenFacts.no_goroutines, Sqljson.GenFacts.no_unsafe_or_sync, Sqljson.GenFacts.no_package_var_writes, Sqljson.GenFacts.no_package_var_uses, Sqljson.GenFacts.in_place_calls_are_local,
   Sqljson.GenFacts.exec_writes_are_per_call, Sqljson.GenFacts.ast_writes_are_construction,
   Sqljson.GenFacts.types_writes_are_receivers, Sqljson.GenFacts.path_writes_are_receivers,
   Sqljson.GenFacts.parser_writes_are_per_call]
